@@ -544,40 +544,43 @@ def _term(e: ast.expr, left: str, right: str) -> Optional[Term]:
     return None
 
 
-def compare_branches(ctx: Ctx) -> Dict[str, Tuple[ast.If, ast.expr]]:
-    """operator literal -> (if node, returned expression) of JSONPathEnvironment.compare."""
+def compare_branches(ctx: Ctx) -> Dict[str, Tuple[ast.AST, ast.expr]]:
+    """operator literal -> (anchor node, the value compare() returns for that operator).
+
+    The value is the *residual* of the function body once `operator == <literal>` is known: tests on the
+    operator are decided, the remaining if/else trees become conditional / boolean expressions and locals are
+    substituted.  How the dispatch is spelled (elif chain, guards, merged or nested conditions, `in (...)`)
+    does not matter."""
+    from sa.peval import residual_expr
+
     fn = ctx.repo.require_func("JSONPathEnvironment.compare")
     params = [a.arg for a in fn.node.args.args]
     if len(params) < 4:
         raise AnalysisError("compare(self, left, operator, right) signature changed")
     opname = params[2]
-    out: Dict[str, Tuple[ast.If, ast.expr]] = {}
+    lits: Dict[str, ast.AST] = {}
     for node in ast.walk(fn.node):
-        if not isinstance(node, ast.If):
-            continue
-        tests = node.test.values if isinstance(node.test, ast.BoolOp) and isinstance(node.test.op, ast.And) else [node.test]
-        lits: List[str] = []
-        # `operator == "a" or operator == "b"` (possibly as one conjunct)
-        flat: List[ast.expr] = []
-        for t in tests:
-            if isinstance(t, ast.BoolOp) and isinstance(t.op, ast.Or) and all(
-                isinstance(v, ast.Compare) and path_of(v.left) == opname for v in t.values
-            ):
-                flat.extend(t.values)
-            else:
-                flat.append(t)
-        tests = flat
-        for t in tests:
+        if isinstance(node, ast.Compare) and len(node.ops) == 1 and path_of(node.left) == opname:
+            for c in ast.walk(node.comparators[0]):
+                if isinstance(c, ast.Constant) and isinstance(c.value, str):
+                    lits.setdefault(c.value, node)
+    out: Dict[str, Tuple[ast.AST, ast.expr]] = {}
+    for lit, anchor in lits.items():
+        def atom(t: ast.expr, lit=lit) -> Optional[bool]:  # type: ignore[no-untyped-def]
             if isinstance(t, ast.Compare) and len(t.ops) == 1 and path_of(t.left) == opname:
-                c = t.comparators[0]
-                if isinstance(t.ops[0], ast.Eq) and isinstance(c, ast.Constant) and isinstance(c.value, str):
-                    lits.append(c.value)
-                elif isinstance(t.ops[0], ast.In) and isinstance(c, (ast.Tuple, ast.List, ast.Set)):
-                    lits.extend(x.value for x in c.elts if isinstance(x, ast.Constant))
-        rets = [s for s in node.body if isinstance(s, ast.Return)]
-        for lit in lits:
-            if rets and rets[0].value is not None:
-                out[lit] = (node, rets[0].value)
+                c, o = t.comparators[0], t.ops[0]
+                if isinstance(o, (ast.Eq, ast.NotEq)) and isinstance(c, ast.Constant):
+                    return (c.value == lit) == isinstance(o, ast.Eq)
+                if isinstance(o, (ast.In, ast.NotIn)) and isinstance(c, (ast.Tuple, ast.List, ast.Set)) and all(
+                    isinstance(x, ast.Constant) for x in c.elts
+                ):
+                    return (lit in [x.value for x in c.elts]) == isinstance(o, ast.In)  # type: ignore[attr-defined]
+            return None
+
+        e = residual_expr(fn.node, atom)
+        if e is None:
+            raise AnalysisError(f"compare(): the value for operator `{lit}` is not an expression of the operands")
+        out[lit] = (anchor, e)
     return out
 
 
